@@ -136,7 +136,7 @@ fn check_rows(out: &mut Out, ctx: &serde_json::Value, t: &Trace, view: &str) -> 
                 let i_args_seen = t.i_args.iter().any(|ia| *ia == argv);
                 let sig = if opv == vec![3u8] && i_args_seen {
                     Some("cldb:i-row-closed-by-the-value-of-a-later-step")
-                } else if opv == vec![2u8] && i_args_seen && row.contains_key("Env") {
+                } else if opv == vec![2u8] && i_args_seen && (row.contains_key("Env") || row.contains_key("Function-Context")) {
                     // same defect, usual guise in compiled code: (a (i c x y) 1) — the apply step relabels the row
                     // the i step opened (Operator becomes 2, Env/Env-Args are added) but i's Arguments stay in it
                     Some("cldb:apply-row-keeps-arguments-of-the-preceding-i-step")
